@@ -58,6 +58,11 @@ type RuleSpec struct {
 	Ann *annSpec `json:"ann,omitempty"`
 	// Stream: "" unary, "client", "server" or "bidi" streaming method.
 	Stream string `json:"stream,omitempty"`
+	// Primary: this rule is an additional_binding of the annotation whose
+	// primary rule is Primary. Adds: this rule is the primary rule and carries
+	// these additional_bindings.
+	Primary *annSpec  `json:"primary,omitempty"`
+	Adds    []annSpec `json:"adds,omitempty"`
 }
 
 type annSpec struct {
@@ -69,9 +74,22 @@ type annSpec struct {
 
 // annotation is the google.api.http annotation of the rule's method (nil for
 // a config-only method).
+func (a annSpec) rule() *annotations.HttpRule {
+	return RuleSpec{Verb: a.Verb, Tmpl: a.Tmpl, Body: a.Body, Resp: a.Resp}.httpRule()
+}
+
 func (r RuleSpec) annotation() *annotations.HttpRule {
 	if r.Via != "config" {
-		return r.httpRule()
+		if r.Primary != nil {
+			hr := r.Primary.rule()
+			hr.AdditionalBindings = []*annotations.HttpRule{r.httpRule()}
+			return hr
+		}
+		hr := r.httpRule()
+		for _, a := range r.Adds {
+			hr.AdditionalBindings = append(hr.AdditionalBindings, a.rule())
+		}
+		return hr
 	}
 	if r.Ann == nil {
 		return nil
@@ -463,7 +481,7 @@ func buildDynamic(rules []RuleSpec, kind string) (*env, error) {
 		case "bidi":
 			m.CS, m.SS = true, true
 		}
-		if r.Resp == "" && r.Via != "config" {
+		if r.Resp == "" && r.Via != "config" && r.Primary == nil && len(r.Adds) == 0 {
 			main.Methods = append(main.Methods, m)
 			continue
 		}
@@ -861,6 +879,18 @@ func requestRules() (dynamic []RuleSpec, real []RuleSpec) {
 		{ID: "vf:config-overrides-annotation-nobody", In: "vf.Req", Out: "vf.Rsp", Verb: "PUT", Tmpl: "/k4/{sub.a}", Body: "", Via: "config", Ann: &annSpec{Body: "*"}},
 		{ID: "cx:config-overrides-annotation-star", In: "larking.testpb.ComplexRequest", Out: "vf.Rsp", Verb: "PATCH", Tmpl: "/k5/{string_value}", Body: "*", Via: "config",
 			Ann: &annSpec{Body: "nested"}},
+		// additional bindings that differ from their primary rule in the body mapping
+		{ID: "vf:additional-body-sub-under-star", In: "vf.Req", Out: "vf.Rsp", Verb: "POST", Tmpl: "/ab1/{a}", Body: "sub",
+			Primary: &annSpec{Verb: "POST", Tmpl: "/ab1p/{a}", Body: "*"}},
+		{ID: "vf:additional-nobody-under-star", In: "vf.Req", Out: "vf.Rsp", Verb: "PUT", Tmpl: "/ab2/{a}/{sub.b}", Body: "",
+			Primary: &annSpec{Verb: "PUT", Tmpl: "/ab2p/{a}", Body: "*"}},
+		{ID: "vf:primary-star-with-additionals", In: "vf.Req", Out: "vf.Rsp", Verb: "POST", Tmpl: "/ab3/{a}", Body: "*",
+			Adds: []annSpec{{Verb: "POST", Tmpl: "/ab3x/{a}", Body: "sub"}, {Verb: "GET", Tmpl: "/ab3y/{a}"}}},
+		// a message whose field names look like reserved words / system parameters
+		{ID: "words:query-only", In: "vf.transcode.Words", Out: "vf.Rsp", Verb: "GET", Tmpl: "/rw/all"},
+		{ID: "words:body-star", In: "vf.transcode.Words", Out: "vf.Rsp", Verb: "POST", Tmpl: "/rw/b", Body: "*"},
+		{ID: "words:vars", In: "vf.transcode.Words", Out: "vf.Rsp", Verb: "GET", Tmpl: "/rw/v/{key}/{fields}/{alt}/{sub.id}"},
+		{ID: "words:vars+body-sub", In: "vf.transcode.Words", Out: "vf.Rsp", Verb: "PUT", Tmpl: "/rw/s/{callback}/{pretty_print}", Body: "sub"},
 		// typed and bytes variables on rules that also map a body
 		vfRule("vf:var-bytes+body-star", "POST", "/pm/{y}", "*"),
 		vfRule("vf:var-scalars+body-star", "POST", "/pq/{n}/{l}/{u}/{f}/{e}/{dbl}", "*"),
